@@ -37,7 +37,9 @@ func genC17(t *rapid.T) c17Prog {
 		case 2:
 			// Flag 1: the caller retries at once (a failed publication is published again; a failed append is
 			// repeated by a second replica of the same writer in the same state)
-			ops = append(ops, sim.Op{Kind: "failnext", Flag: rapid.IntRange(0, 1).Draw(t, "retry")})
+			// PC: what the failing write reports (plain error, timeout, deadline, wrapped timeout); B: how many block
+			// writes in a row fail (6 = every write until the operation has returned: an outage)
+			ops = append(ops, sim.Op{Kind: "failnext", Flag: rapid.IntRange(0, 1).Draw(t, "retry"), PC: rapid.IntRange(0, 3).Draw(t, "failKind"), B: rapid.SampledFrom([]int{1, 1, 2, 3, 6}).Draw(t, "failRun")})
 			if rapid.IntRange(0, 2).Draw(t, "failpub") == 0 { // the write that fails is a publication
 				ops = append(ops, sim.Op{Kind: "publish", A: rapid.IntRange(0, w.Replicas-1).Draw(t, "pubrep")})
 			}
@@ -70,6 +72,26 @@ type returned struct {
 }
 
 var errInjectedAdd = errors.New("injected block write failure")
+
+// timeoutErr is what a busy or unreachable store answers: an error that calls itself a timeout and temporary.
+type timeoutErr struct{}
+
+func (timeoutErr) Error() string   { return "injected block write failure: i/o timeout" }
+func (timeoutErr) Timeout() bool   { return true }
+func (timeoutErr) Temporary() bool { return true }
+
+// injectedErr returns the error of kind k a failing write reports.
+func injectedErr(k int) error {
+	switch k % 4 {
+	case 1:
+		return timeoutErr{}
+	case 2:
+		return context.DeadlineExceeded
+	case 3:
+		return fmt.Errorf("store: %w", timeoutErr{})
+	}
+	return errInjectedAdd
+}
 
 // C17 — the block store is causally closed at every instant (crash safety).
 func runC17(tb ev.TB, p c17Prog) ev.Result {
@@ -204,9 +226,13 @@ func runC17(tb ev.TB, p c17Prog) ev.Result {
 			failArmed = true
 			retryArmed = op.Flag == 1
 			target := w.Store.NumAdds()
+			run, ferr := op.B, injectedErr(op.PC)
+			if run < 1 {
+				run = 1
+			}
 			w.Store.SetAddFail(func(nth int, c cid.Cid) error {
-				if nth == target {
-					return errInjectedAdd
+				if nth >= target && (nth < target+run || run >= 6) {
+					return ferr
 				}
 				return nil
 			})
@@ -220,6 +246,10 @@ func runC17(tb ev.TB, p c17Prog) ev.Result {
 				// refused because the caller had given up: fine, provided nothing changed
 				if d := before.diff(takeState(r.Log)); d != "" {
 					tb.Fatalf("op #%d publish with a cancelled context failed and changed the log: %s", i, d)
+				}
+				if failArmed { // the write that was to fail was never attempted: the injected failure must not hit a later operation
+					failArmed = false
+					w.Store.SetAddFail(nil)
 				}
 				continue
 			}
@@ -235,6 +265,7 @@ func runC17(tb ev.TB, p c17Prog) ev.Result {
 			}
 			if failArmed {
 				failArmed = false
+				w.Store.SetAddFail(nil)
 				nfail++
 				if err != nil {
 					if w.Store.NumWrites() != writesBefore {
@@ -292,6 +323,7 @@ func runC17(tb ev.TB, p c17Prog) ev.Result {
 		}
 		if op.Kind == "append" && failArmed {
 			failArmed = false
+			w.Store.SetAddFail(nil)
 			nfail++
 			if info.Err != nil {
 				if w.Store.NumWrites() != writesBefore {
@@ -549,7 +581,7 @@ func (a state) diff(b state) string {
 func TestC17(t *testing.T) {
 	c := ev.Get("C17")
 	c.Level = "fault_enumeration"
-	c.Rule = "a generated multi-replica program over ONE shared store (appends with skip references, unbounded merges, identity changes, default or link-key codec) interleaved with manifest publications, injected block-write failures (half of them followed at once by the same operation again: the publication repeated, the append made by a second replica of the same writer in the same state) appends that an access controller refuses although they reproduce a committed block, appends / publications issued with an already cancelled context (whatever they return without an error must be stored), and two replicas of one writer appending the same entry at the same time while the first write of the block is held inside the store (what the second returns must be stored already). Crash points are the boundaries between block writes of the fake store (every Dag().Add of the library is one atomic step): for EVERY write prefix of the history every entry block must decode and name only blocks written before it, and every manifest only stored heads. Every value returned to a caller (each append's hash, each manifest CID) is loaded from the store truncated to the prefix that existed when it was returned, from the final store and from further prefixes (all later prefixes in the thorough tier, 2 generated ones in quick) and must give exactly the entry set / heads / values of the log at that moment. An operation whose block write fails must either return an error and leave entries and heads unchanged, or return a value whose block is stored after all (it is then held to the same loads). Non-trivial = history with a merge-append (entry with >= 2 predecessors) and an append after a publication by the same replica; distinct = distinct program."
+	c.Rule = "a generated multi-replica program over ONE shared store (appends with skip references, unbounded merges, identity changes, default or link-key codec) interleaved with manifest publications, injected block-write failures (1, 2 or 3 writes in a row or every write until the operation has returned; reported as a plain error, as an error that calls itself a timeout, as a deadline error or as a wrapped timeout; half of them followed at once by the same operation again: the publication repeated, the append made by a second replica of the same writer in the same state) appends that an access controller refuses although they reproduce a committed block, appends / publications issued with an already cancelled context (whatever they return without an error must be stored), and two replicas of one writer appending the same entry at the same time while the first write of the block is held inside the store (what the second returns must be stored already). Crash points are the boundaries between block writes of the fake store (every Dag().Add of the library is one atomic step): for EVERY write prefix of the history every entry block must decode and name only blocks written before it, and every manifest only stored heads. Every value returned to a caller (each append's hash, each manifest CID) is loaded from the store truncated to the prefix that existed when it was returned, from the final store and from further prefixes (all later prefixes in the thorough tier, 2 generated ones in quick) and must give exactly the entry set / heads / values of the log at that moment. An operation whose block write fails must either return an error and leave entries and heads unchanged, or return a value whose block is stored after all (it is then held to the same loads). Non-trivial = history with a merge-append (entry with >= 2 predecessors) and an append after a publication by the same replica; distinct = distinct program."
 	c.Assumptions = []string{"replicas share one store (the statement's setting); block writes are atomic", "the clock bump of a failed append is not part of the observable state checked (entries and heads are)"}
 	ev.Check(t, "C17", genC17, runC17)
 }
